@@ -44,9 +44,10 @@ type Actor struct {
 	IsRT bool
 	UA   string
 
-	Cur      *Call // outstanding (or last) call on Conn
-	Calls    []*Call
-	absorbed map[*Call]bool
+	Cur       *Call // outstanding (or last) call on Conn
+	Calls     []*Call
+	SideCalls []*Call
+	absorbed  map[*Call]bool
 
 	// runtime side
 	Deliveries []Delivery
@@ -164,6 +165,19 @@ func (a *Actor) RestoreError(body []byte, errType string) *Call {
 	}
 	c := a.start("rt-restoreerror", "POST", rtBase+"/restore/error", h, body)
 	a.w.absorb()
+	return c
+}
+
+// Side issues a request on a second connection of the same process (the main connection may be parked in next).
+func (a *Actor) Side(tag, method, path string, hdr map[string]string, body []byte) *Call {
+	r := a.w.r
+	conn := r.Dial(RapiAddr)
+	a.P.Attach(conn)
+	r.NextStep()
+	c := conn.Start(a.Who+"+", method, path, hdr, body)
+	c.Tag = tag
+	a.SideCalls = append(a.SideCalls, c)
+	r.Settle()
 	return c
 }
 
